@@ -59,11 +59,12 @@ package phase0
 //@   ensures err == nil ==> r == (v_act(v) <= epoch && epoch < v_exit(n_val_write, v))
 //@   ensures err != nil ==> !r
 
-// initiate_validator_exit (C01: exits and slashings in blocks; C02: ejections): a validator without an exit epoch
+// initiate_validator_exit (C01: exits and slashings in blocks; the epoch transition's ejections go through
+// ComputeRegistryProcessData below): a validator without an exit epoch
 // gets the exit queue's epoch - one later when that epoch already holds churn-limit exits - and a withdrawable
 // epoch MIN_VALIDATOR_WITHDRAWABILITY_DELAY after it; a validator that has an exit epoch is left alone.
 //@ func InitiateValidatorExit(spec, epc, state, index) err
-//@   property C01 C02
+//@   property C01
 //@   use reg_len_nonneg, exq_count_zero
 //@   requires spec != nil && epc != nil && state != nil && epc.CurrentEpoch != nil && spec.CHURN_LIMIT_QUOTIENT != 0
 //@   assigns ghost(n_viter), ghost(viter_pos), ghost(viter_reg), ghost(n_val_write), ghost(n_set_exit), ghost(set_exit_v), ghost(set_exit_val), ghost(n_set_wd), ghost(set_wd_v), ghost(set_wd_val)
@@ -349,6 +350,7 @@ package phase0
 //@   loop *
 //@     invariant ctx_t >= old(ctx_t) && (old(ctx_seen) || !ctx_seen)
 //@     invariant ctx_t > old(ctx_t) ==> !ctx_cancelled(ctx, old(ctx_t))
+//@   assigns ghost(n_biter), ghost(biter_pos), ghost(biter_reg)
 
 //@ func ProcessDeposits(ctx, spec, epc, state, ops) err
 //@   property C18 C03
@@ -381,7 +383,7 @@ package phase0
 //@     invariant ctx_t > old(ctx_t) ==> !ctx_cancelled(ctx, old(ctx_t))
 
 //@ func ProcessEffectiveBalanceUpdates(ctx, spec, epc, flats, state) err
-//@   property C18
+//@   property C18 C02
 //@   panics off
 //@   requires ctx != nil
 //@   opt weakcalls
@@ -394,6 +396,16 @@ package phase0
 //@   loop *
 //@     invariant ctx_t >= old(ctx_t) && (old(ctx_seen) || !ctx_seen)
 //@     invariant ctx_t > old(ctx_t) ==> !ctx_cancelled(ctx, old(ctx_t))
+//@   use bal_len_nonneg
+//@   assigns ghost(n_biter), ghost(biter_pos), ghost(biter_reg), ghost(n_set_eb)
+//@   ensures c02_hysteresis: err == nil && old(spec != nil && state != nil && spec.HYSTERESIS_QUOTIENT != 0 && spec.EFFECTIVE_BALANCE_INCREMENT != 0 && ((spec.EFFECTIVE_BALANCE_INCREMENT / spec.HYSTERESIS_QUOTIENT) * spec.HYSTERESIS_DOWNWARD_MULTIPLIER) < 4611686018427387904 && ((spec.EFFECTIVE_BALANCE_INCREMENT / spec.HYSTERESIS_QUOTIENT) * spec.HYSTERESIS_UPWARD_MULTIPLIER) < 4611686018427387904 && bal_len(st_bals(state)) <= len(flats) && (forall a, b :: {reg_val(st_vals(state), a), reg_val(st_vals(state), b)} 0 <= a && a < b && b < bal_len(st_bals(state)) ==> reg_val(st_vals(state), a) != reg_val(st_vals(state), b)) && (forall j :: {flats[j]} 0 <= j && j < len(flats) ==> flats[j].EffectiveBalance < 4611686018427387904) && (forall j :: {bal_at(n_set_bal, st_bals(state), j)} bal_at(n_set_bal, st_bals(state), j) < 4611686018427387904)) ==> (forall j :: {reg_val(st_vals(state), j)} 0 <= j && j < bal_len(st_bals(state)) ==> v_eb_now(n_set_eb, reg_val(st_vals(state), j)) == ite(bal_at(old(n_set_bal), st_bals(state), j) + ((spec.EFFECTIVE_BALANCE_INCREMENT / spec.HYSTERESIS_QUOTIENT) * spec.HYSTERESIS_DOWNWARD_MULTIPLIER) < flats[j].EffectiveBalance || flats[j].EffectiveBalance + ((spec.EFFECTIVE_BALANCE_INCREMENT / spec.HYSTERESIS_QUOTIENT) * spec.HYSTERESIS_UPWARD_MULTIPLIER) < bal_at(old(n_set_bal), st_bals(state), j), min(bal_at(old(n_set_bal), st_bals(state), j) - bal_at(old(n_set_bal), st_bals(state), j) % spec.EFFECTIVE_BALANCE_INCREMENT, spec.MAX_EFFECTIVE_BALANCE), v_eb_now(old(n_set_eb), reg_val(st_vals(state), j))))
+//@   ensures c02_others: err == nil ==> (forall w ValI :: {v_eb_now(n_set_eb, w)} (forall j :: {reg_val(st_vals(state), j)} 0 <= j && j < bal_len(st_bals(state)) ==> reg_val(st_vals(state), j) != w) ==> v_eb_now(n_set_eb, w) == v_eb_now(old(n_set_eb), w))
+//@   ensures c02_balances: n_set_bal == old(n_set_bal)
+//@   loop 1
+//@     invariant biter_reg == bals && bals == st_bals(state) && vals == st_vals(state) && fnid(balIterNext) == n_biter && i == biter_pos && 0 <= i && i <= bal_len(bals) && n_set_bal == old(n_set_bal) && n_set_eb >= old(n_set_eb)
+//@     invariant old(spec != nil && state != nil && spec.HYSTERESIS_QUOTIENT != 0 && spec.EFFECTIVE_BALANCE_INCREMENT != 0 && ((spec.EFFECTIVE_BALANCE_INCREMENT / spec.HYSTERESIS_QUOTIENT) * spec.HYSTERESIS_DOWNWARD_MULTIPLIER) < 4611686018427387904 && ((spec.EFFECTIVE_BALANCE_INCREMENT / spec.HYSTERESIS_QUOTIENT) * spec.HYSTERESIS_UPWARD_MULTIPLIER) < 4611686018427387904 && bal_len(st_bals(state)) <= len(flats) && (forall a, b :: {reg_val(st_vals(state), a), reg_val(st_vals(state), b)} 0 <= a && a < b && b < bal_len(st_bals(state)) ==> reg_val(st_vals(state), a) != reg_val(st_vals(state), b)) && (forall j :: {flats[j]} 0 <= j && j < len(flats) ==> flats[j].EffectiveBalance < 4611686018427387904) && (forall j :: {bal_at(n_set_bal, st_bals(state), j)} bal_at(n_set_bal, st_bals(state), j) < 4611686018427387904)) ==> (forall j :: {reg_val(st_vals(state), j)} 0 <= j && j < i ==> v_eb_now(n_set_eb, reg_val(st_vals(state), j)) == ite(bal_at(old(n_set_bal), st_bals(state), j) + ((spec.EFFECTIVE_BALANCE_INCREMENT / spec.HYSTERESIS_QUOTIENT) * spec.HYSTERESIS_DOWNWARD_MULTIPLIER) < flats[j].EffectiveBalance || flats[j].EffectiveBalance + ((spec.EFFECTIVE_BALANCE_INCREMENT / spec.HYSTERESIS_QUOTIENT) * spec.HYSTERESIS_UPWARD_MULTIPLIER) < bal_at(old(n_set_bal), st_bals(state), j), min(bal_at(old(n_set_bal), st_bals(state), j) - bal_at(old(n_set_bal), st_bals(state), j) % spec.EFFECTIVE_BALANCE_INCREMENT, spec.MAX_EFFECTIVE_BALANCE), v_eb_now(old(n_set_eb), reg_val(st_vals(state), j))))
+//@     invariant old(spec != nil && state != nil && spec.HYSTERESIS_QUOTIENT != 0 && spec.EFFECTIVE_BALANCE_INCREMENT != 0 && ((spec.EFFECTIVE_BALANCE_INCREMENT / spec.HYSTERESIS_QUOTIENT) * spec.HYSTERESIS_DOWNWARD_MULTIPLIER) < 4611686018427387904 && ((spec.EFFECTIVE_BALANCE_INCREMENT / spec.HYSTERESIS_QUOTIENT) * spec.HYSTERESIS_UPWARD_MULTIPLIER) < 4611686018427387904 && bal_len(st_bals(state)) <= len(flats) && (forall a, b :: {reg_val(st_vals(state), a), reg_val(st_vals(state), b)} 0 <= a && a < b && b < bal_len(st_bals(state)) ==> reg_val(st_vals(state), a) != reg_val(st_vals(state), b)) && (forall j :: {flats[j]} 0 <= j && j < len(flats) ==> flats[j].EffectiveBalance < 4611686018427387904) && (forall j :: {bal_at(n_set_bal, st_bals(state), j)} bal_at(n_set_bal, st_bals(state), j) < 4611686018427387904)) ==> (forall j :: {reg_val(st_vals(state), j)} i <= j && j < bal_len(st_bals(state)) ==> v_eb_now(n_set_eb, reg_val(st_vals(state), j)) == v_eb_now(old(n_set_eb), reg_val(st_vals(state), j)))
+//@     invariant forall w ValI :: {v_eb_now(n_set_eb, w)} (forall j :: {reg_val(st_vals(state), j)} 0 <= j && j < bal_len(st_bals(state)) ==> reg_val(st_vals(state), j) != w) ==> v_eb_now(n_set_eb, w) == v_eb_now(old(n_set_eb), w)
 
 //@ func ProcessEth1DataReset(ctx, spec, epc, state) err
 //@   property C18 C02
@@ -583,6 +595,7 @@ package phase0
 //@   loop *
 //@     invariant ctx_t >= old(ctx_t) && (old(ctx_seen) || !ctx_seen)
 //@     invariant ctx_t > old(ctx_t) ==> !ctx_cancelled(ctx, old(ctx_t))
+//@   assigns ghost(n_biter), ghost(biter_pos), ghost(biter_reg), ghost(n_set_eb)
 //@   assigns ghost(n_eth1_reset), ghost(n_slash_reset), ghost(last_slash_reset), ghost(n_set_mix), ghost(last_set_mix_epoch), ghost(last_set_mix), ghost(n_hist_update)
 //@   assigns ghost(n_set_prevjust), ghost(set_prevjust), ghost(n_set_curjust), ghost(set_curjust), ghost(n_set_fin), ghost(set_fin), ghost(n_set_jbits), ghost(set_jbits)
 //@   assigns ghost(n_viter), ghost(viter_pos), ghost(viter_reg), ghost(n_val_write), ghost(n_set_exit), ghost(set_exit_v), ghost(set_exit_val), ghost(n_set_wd), ghost(set_wd_v), ghost(set_wd_val)
